@@ -36,9 +36,10 @@ struct SharedCore
 template<class T2, class T>
 const SharedCore<T2>* cast_(const SharedCore<T>* c)
 {
-	SharedCore<T2>* c2 = (SharedCore<T2>*)c;
-	c2->p = c->p;
-	return c2;
+	// the core is shared with other handles (and threads) and c can be null: only check that T* converts to T2*
+	T2* p = (T*)0;
+	(void)p;
+	return (const SharedCore<T2>*)c;
 }
 
 
